@@ -14,6 +14,7 @@ type TextOutputFileCursor struct {
 	lineno int
 	fh *os.File
 	pretend bool
+	err error
 }
 
 
@@ -23,7 +24,7 @@ func NewTextOutputFileCursor(filename string) (*TextOutputFileCursor, error) {
 		fh := os.Stdout
 		var err error
 		if len(filename) > 0 {
-			if err := verifPoint("open", filename, ""); err != nil {
+			if err := verifPoint("open", filename); err != nil {
 				return nil, err
 			}
 			fh, err = os.OpenFile(filename, os.O_RDWR|os.O_TRUNC|os.O_CREATE, 0666)
@@ -41,29 +42,37 @@ func NewTextOutputFileCursor(filename string) (*TextOutputFileCursor, error) {
 
 func (toc *TextOutputFileCursor) Println(line string) {
 	toc.lineno++
-	if !toc.pretend {
-		if verifPoint("write", toc.filename, "") != nil {
+	if !toc.pretend && toc.err == nil {
+		if err := verifPoint("write", toc.filename); err != nil {
+			toc.err = err
 			return
 		}
-		fmt.Fprintln(toc.fh, line)
+		_, toc.err = fmt.Fprintln(toc.fh, line)
 	}
 }
 
 
 func (toc *TextOutputFileCursor) Printf(msg string, parms...interface{}) {
 	toc.lineno++
-	if !toc.pretend {
-		if verifPoint("write", toc.filename, "") != nil {
+	if !toc.pretend && toc.err == nil {
+		if err := verifPoint("write", toc.filename); err != nil {
+			toc.err = err
 			return
 		}
-		fmt.Fprintf(toc.fh, msg, parms...)
+		_, toc.err = fmt.Fprintf(toc.fh, msg, parms...)
 	}
 }
 
 
-func (toc *TextOutputFileCursor) Close() {
-	if !toc.pretend {
-		toc.fh.Close()
+// Close closes the file and returns the first error met while writing or closing it
+func (toc *TextOutputFileCursor) Close() error {
+	if toc.pretend {
+		return nil
 	}
+	err := toc.fh.Close()
+	if toc.err == nil {
+		toc.err = err
+	}
+	return toc.err
 }
 
